@@ -129,3 +129,8 @@ Lemma plain_tiled_nonvacuous :
   accepts (run g_plain c_default no_orc false 50 [97;32;32;98;10;98]%N) = true /\
   all_ws g_plain c_default = c_ws c_default.
 Proof. vm_compute. repeat split. Qed.
+
+Lemma cmt1_any_fuel :
+  not_aborted (run g_cmt1 c_default cmt1_orc false 20 ([97] ++ [32;98])%N) /\
+  not_aborted (run g_cmt1 c_default cmt1_orc' false 50 ([97] ++ ([32] ++ [47;47;32;105] ++ [10]) ++ [32;98])%N).
+Proof. vm_compute. split; exact I. Qed.
